@@ -91,6 +91,10 @@ class Gen:
             tyx = "savefile::AbiRemoved<{}>".format(base)
         if a["ig"]:
             attrs.append("#[savefile_ignore]")
+        if a.get("ii"):
+            attrs.append("#[savefile_introspect_ignore]")
+        if a.get("ik"):
+            attrs.append("#[savefile_introspect_key]")
         if not (a["from"] == 0 and a["to"] == INF):
             rng = "{}..{}".format(a["from"], "" if a["to"] == INF else a["to"])
             attrs.append('#[savefile_versions="{}"]'.format(rng))
